@@ -2,8 +2,9 @@
 // cachecontroller.InMemoryCacheController and ONE storagewrappers.CachedDatastore share a harness-owned
 // cache (TTLs on the harness clock: an entry is gone once clock >= set time + ttl) over a stub datastore
 // (tuple list + changelog stamped with the harness clock, ReadChanges descending with the caller's page
-// size). internal/cachecontroller, internal/concurrency, pkg/storage/storagewrappers and
-// golang.org/x/sync/singleflight are instrumented at build time (variant "cctl", vgen -time -ctxtimeout):
+// size); the query cache is ONE graph.CachedCheckResolver on the same cache over a scripted delegate that answers
+// from the stub store. internal/cachecontroller, internal/graph, internal/concurrency, pkg/storage/storagewrappers,
+// golang.org/x/sync/singleflight and sourcegraph/conc are instrumented at build time (variant "cctl", vgen -time -ctxtimeout):
 // time.Now/Since read the harness clock and the controller's context.WithTimeout(ctx, time.Second) gets its
 // deadline on it. Two kinds of scenarios:
 //
@@ -25,6 +26,7 @@ import (
 	"google.golang.org/protobuf/types/known/timestamppb"
 
 	"github.com/openfga/openfga/internal/cachecontroller"
+	"github.com/openfga/openfga/internal/graph"
 	"github.com/openfga/openfga/internal/verifrt/vrt"
 	"github.com/openfga/openfga/internal/verifrt/vsync"
 	"github.com/openfga/openfga/internal/verifrt/vtime"
@@ -55,7 +57,7 @@ var (
 
 // Config is what histories and interleaving scenarios have in common.
 type Config struct {
-	Mode   string `json:"mode"`             // "iter": controller + iterator cache; "query": controller + query cache (modelled entries)
+	Mode   string `json:"mode"`             // "iter": controller + iterator cache; "query": controller + query cache (the real graph.CachedCheckResolver)
 	Lazy   bool   `json:"lazy,omitempty"`   // inner iterators run their query at the first Next/Head (SQL backends) instead of at open (memory backend)
 	Jitter uint32 `json:"jitter,omitempty"` // cache TTL jitter percentage (0 = off, the default configuration)
 	JitMax bool   `json:"jitmax,omitempty"` // the jitter draw (uniform in [0, max]) is an environment choice: false = 0, true = max
@@ -124,13 +126,54 @@ func apiMatch(api string, tk *openfgav1.TupleKey) bool {
 	panic("cctl: unknown api " + api)
 }
 
-// query-model keys: q0 = "is tuple 0 there", q1 = "is tuple 1 there" (the answer of a Check that depends on one tuple)
+// query-cache requests: q0 = Check(tuple 0), q1 = Check(tuple 1) through the REAL graph.CachedCheckResolver; the
+// scripted delegate answers "is the tuple in the store" (the content behind R1 / U2 is that tuple or nothing)
 func qAPI(k int) string {
 	if k == 0 {
 		return "R1"
 	}
 	return "U2"
 }
+
+const modelID = "01HVERIFCCTLMODEL000000000"
+
+var checkKeys [2]keys.Key
+
+// checkKey is the query-cache key of q<k> (as CachedCheckResolver computes it from the request).
+func checkKey(k int) keys.Key {
+	if checkKeys[k] == (keys.Key{}) {
+		req, err := graph.NewResolveCheckRequest(graph.ResolveCheckRequestParams{StoreID: storeID, TupleKey: tupOf(k), AuthorizationModelID: modelID})
+		if err != nil {
+			panic(err)
+		}
+		tk := req.GetTupleKey()
+		checkKeys[k] = storage.CheckCacheKey(storeID, tk.GetObject(), tk.GetRelation(), tk.GetUser(), req.GetInvariantCacheKey())
+	}
+	return checkKeys[k]
+}
+
+// delegate is the scripted resolver behind the cached one: it reads the store's current answer at a
+// scheduler-visible point and returns it at a later one (a write may land in between).
+type delegate struct{ w *world }
+
+func (d *delegate) ResolveCheck(_ context.Context, req *graph.ResolveCheckRequest) (*graph.ResolveCheckResponse, error) {
+	w := d.w
+	want := tkString(req.GetTupleKey())
+	allowed := false
+	w.storeOp("store.query", false, func() {
+		w.delegCalls++
+		for _, i := range w.order {
+			if tkString(tupOf(i)) == want {
+				allowed = true
+			}
+		}
+	})
+	vrt.Point("delegate.return")
+	return &graph.ResolveCheckResponse{Allowed: allowed}, nil
+}
+func (d *delegate) Close()                           {}
+func (d *delegate) SetDelegate(graph.CheckResolver)  {}
+func (d *delegate) GetDelegate() graph.CheckResolver { return nil }
 
 // ---------------------------------------------------------------------------
 // the world: clock, cache, store, timeout contexts, real components
@@ -145,12 +188,6 @@ type change struct {
 	tup int
 	op  openfgav1.TupleOperation
 	ts  time.Time
-}
-
-type qentry struct {
-	lm  time.Time // LastModified of the modelled CheckResponseCacheEntry
-	val string
-	ttl time.Duration
 }
 
 type cver struct { // one version of the content behind a read key
@@ -182,19 +219,20 @@ type world struct {
 
 	ctl *cachecontroller.InMemoryCacheController
 	cds *storagewrappers.CachedDatastore
+	ccr *graph.CachedCheckResolver
 	bg  vsync.WaitGroup
 
 	slowNext, failNext bool
+	delegCalls         int // calls of the scripted delegate (a query-cache miss)
 
 	// monitors
 	vers      map[string][]cver
 	lastWrite time.Time
 	haveWrite bool
 	invAfter  bool // a run that started after the last write has completed successfully
-	qm        map[int]*qentry
-	rcOK      int // successful ReadChanges calls
-	clSets    int // Sets of the changelog entry (a run got its page and went on)
-	runs      int // ReadChanges calls
+	rcOK      int  // successful ReadChanges calls
+	clSets    int  // Sets of the changelog entry (a run got its page and went on)
+	runs      int  // ReadChanges calls
 	log       []lrec
 	logging   bool
 	badTTL    string
@@ -202,7 +240,6 @@ type world struct {
 
 var (
 	worldObj = new(int) // clock + store: one scheduler object (a write stamps and commits in one step)
-	qmObj    = new(int)
 )
 
 type keyObj struct{ k keys.Key }
@@ -217,7 +254,7 @@ func mix(h uint64, vs ...uint64) uint64 {
 }
 
 func newWorld(cfg Config, tickOnRead bool) *world {
-	w := &world{cfg: cfg, tickOnRead: tickOnRead, m: map[keys.Key]*centry{}, present: map[int]bool{}, vers: map[string][]cver{}, qm: map[int]*qentry{}}
+	w := &world{cfg: cfg, tickOnRead: tickOnRead, m: map[keys.Key]*centry{}, present: map[int]bool{}, vers: map[string][]cver{}}
 	vtime.NowHook = w.now
 	vtime.WithTimeoutHook = w.withTimeout
 	for _, a := range APIs {
@@ -230,14 +267,23 @@ func newWorld(cfg Config, tickOnRead bool) *world {
 		opts = append(opts, storagewrappers.WithCachedDatastoreJitterPercentage(cfg.Jitter))
 	}
 	w.cds = storagewrappers.NewCachedDatastore(context.Background(), ds, w, maxResult, IterTTL, &singleflight.Group{}, &w.bg, opts...)
+	ropts := []graph.CachedCheckResolverOpt{graph.WithExistingCache(w), graph.WithCacheTTL(QueryTTL)}
+	if cfg.Jitter > 0 {
+		ropts = append(ropts, graph.WithJitterPercentage(cfg.Jitter))
+	}
+	ccr, err := graph.NewCachedCheckResolver(ropts...)
+	if err != nil {
+		panic(err)
+	}
+	ccr.SetDelegate(&delegate{w: w})
+	w.ccr = ccr
 	return w
 }
 
 // registerObjects gives every shared harness object a canonical name (created by thread 0 in a fixed order).
 func (w *world) registerObjects() {
 	vrt.Obj(worldObj)
-	vrt.Obj(qmObj)
-	ks := []keys.Key{storage.ChangelogCacheKey(storeID), storage.InvalidIteratorCacheKey(storeID),
+	ks := []keys.Key{checkKey(0), checkKey(1), storage.ChangelogCacheKey(storeID), storage.InvalidIteratorCacheKey(storeID),
 		storage.InvalidIteratorByObjectRelationCacheKey(storeID, "doc:1", "viewer"), storage.InvalidIteratorByObjectRelationCacheKey(storeID, "doc:2", "viewer"),
 		storage.InvalidIteratorByUserObjectTypeCacheKey(storeID, "user:a", "doc"), storage.InvalidIteratorByUserObjectTypeCacheKey(storeID, "group:g#member", "doc")}
 	for _, a := range APIs {
@@ -378,6 +424,8 @@ func lmOf(v any) time.Time {
 		return e.LastModified
 	case *storage.ChangelogCacheEntry:
 		return e.LastModified
+	case *graph.CheckResponseCacheEntry:
+		return e.LastModified
 	}
 	return time.Time{}
 }
@@ -396,6 +444,12 @@ func (w *world) Set(k keys.Key, v any, d time.Duration) {
 			w.badTTL = fmt.Sprintf("iterator entry stored with ttl %v (configured %v, jitter %d%%)", d, IterTTL, w.cfg.Jitter)
 		} else {
 			d = w.cfg.jit(IterTTL)
+		}
+	case *graph.CheckResponseCacheEntry:
+		if d < QueryTTL || d > w.cfg.maxTTL(QueryTTL) {
+			w.badTTL = fmt.Sprintf("query entry stored with ttl %v (configured %v, jitter %d%%)", d, QueryTTL, w.cfg.Jitter)
+		} else {
+			d = w.cfg.jit(QueryTTL)
 		}
 	}
 	vrt.OpObj("cache.Set", keyObj{k}, nil, func(s *uint64, ev uint64) (uint64, bool) {
@@ -647,30 +701,35 @@ func (w *world) read(api string, wait bool) (string, bool, error) {
 	return strings.Join(got, ","), hit, err
 }
 
-// qread is the modelled query-cache lookup of a Check whose answer is the content behind one key, in the
-// order of commands.CheckQuery.Execute / graph.CachedCheckResolver.ResolveCheck: invalidation time first,
-// then the lookup (an entry is used iff its LastModified is AFTER the invalidation time), on a miss the
-// computation from the store and then the entry stamped with the time of the Set.
+// qread is one cached-mode Check of tuple k as commands.CheckQuery.Execute issues it: the invalidation time from
+// the controller goes into the request, the REAL graph.CachedCheckResolver (instrumented, over the harness cache)
+// answers from its entry or calls the scripted delegate. The answer is rendered as the content behind qAPI(k).
 func (w *world) qread(k int) (ans string, hit bool, inv time.Time) {
-	inv = w.ctl.DetermineInvalidationTime(context.Background(), storeID)
-	var e *qentry
-	vrt.OpObj("qcache.Get", qmObj, nil, func(s *uint64, ev uint64) (uint64, bool) {
-		if x := w.qm[k]; x != nil && w.cur().Before(x.lm.Add(x.ttl)) {
-			e = x
-		}
-		return mix(*s, uint64(w.macro)), false
-	})
-	if e != nil && e.lm.After(inv) {
-		return e.val, true, inv
+	ctx := context.Background()
+	inv = w.ctl.DetermineInvalidationTime(ctx, storeID)
+	req, err := graph.NewResolveCheckRequest(graph.ResolveCheckRequestParams{StoreID: storeID, TupleKey: tupOf(k), AuthorizationModelID: modelID, LastCacheInvalidationTime: inv})
+	if err != nil {
+		panic(err)
 	}
-	w.storeOp("store.query", false, func() { ans = w.content(qAPI(k)) })
-	lm := w.now()
-	vrt.OpObj("qcache.Set", qmObj, nil, func(s *uint64, ev uint64) (uint64, bool) {
-		w.qm[k] = &qentry{lm: lm, val: ans, ttl: w.cfg.jit(QueryTTL)}
-		*s = ev
-		return 0, false
-	})
-	return ans, false, inv
+	c0 := w.delegCalls
+	resp, err := w.ccr.ResolveCheck(ctx, req)
+	if err != nil {
+		panic(err)
+	}
+	if resp.GetAllowed() {
+		ans = tkString(tupOf(k))
+	}
+	return ans, w.delegCalls == c0, inv
+}
+
+// qentry returns the live query-cache entry of q<k>, if any.
+func (w *world) qentry(k int) (*centry, *graph.CheckResponseCacheEntry) {
+	if e := w.m[checkKey(k)]; w.live(e) {
+		if v, ok := e.val.(*graph.CheckResponseCacheEntry); ok {
+			return e, v
+		}
+	}
+	return nil, nil
 }
 
 // ---------------------------------------------------------------------------
@@ -728,11 +787,6 @@ func (w *world) canonExact() string {
 			}
 		}
 	}
-	for _, q := range w.qm {
-		if q != nil && now.Before(q.lm.Add(q.ttl)) {
-			add(q.lm)
-		}
-	}
 	sort.Slice(all, func(i, j int) bool { return all[i] < all[j] })
 	rank := map[int64]int{}
 	for _, x := range all {
@@ -779,6 +833,8 @@ func (w *world) canonExact() string {
 			fmt.Fprintf(&b, "INV(%s);", tm(v.LastModified))
 		case *storage.TupleIteratorCacheEntry:
 			fmt.Fprintf(&b, "IT(%s,%d);", tm(v.LastModified), len(v.Tuples))
+		case *graph.CheckResponseCacheEntry:
+			fmt.Fprintf(&b, "Q(%s,%v);", tm(v.LastModified), v.CheckResponse.GetAllowed())
 		default:
 			fmt.Fprintf(&b, "%T;", v)
 		}
@@ -787,11 +843,6 @@ func (w *world) canonExact() string {
 	for _, a := range APIs {
 		for _, v := range keep[a] {
 			fmt.Fprintf(&b, "%s:%q@%s;", a, v.val, tm(v.from))
-		}
-	}
-	for k := 0; k < 2; k++ {
-		if q := w.qm[k]; q != nil && now.Before(q.lm.Add(q.ttl)) {
-			fmt.Fprintf(&b, "|q%d=%q@%s", k, q.val, tm(q.lm))
 		}
 	}
 	return b.String()
